@@ -11,6 +11,7 @@ func init() {
 	vpRegister("c16_tags", vpH_c16_tags)
 	vpRegister("c16_reuse", vpH_c16_reuse)
 	vpRegister("c16_twice", vpH_c16_twice)
+	vpRegister("c16_wide", vpH_c16_wide)
 }
 
 type vpT1 struct {
@@ -758,4 +759,57 @@ func vpH_c16_twice() {
 		vpAssert(h.Ptr != nil && h.Ptr.Y == w, "a present key fills the struct the pointer field holds")
 	}
 	vpAssert(vpUnchanged(doc1, before) && m1.Len() == 1, "the earlier document is not written to")
+}
+
+// ---- a wide struct: how many keys a document matches is a size like any other ----
+
+type vpWide struct {
+	F01  string         `yaml:"f01"`
+	F02  string         `yaml:"f02"`
+	F03  string         `yaml:"f03"`
+	F04  string         `yaml:"f04"`
+	F05  string         `yaml:"f05"`
+	F06  string         `yaml:"f06"`
+	F07  string         `yaml:"f07"`
+	F08  string         `yaml:"f08"`
+	F09  string         `yaml:"f09"`
+	F10  string         `yaml:"f10"`
+	F11  string         `yaml:"f11"`
+	F12  string         `yaml:"f12"`
+	F13  string         `yaml:"f13"`
+	F14  string         `yaml:"f14"`
+	F15  string         `yaml:"f15"`
+	F16  string         `yaml:"f16"`
+	F17  string         `yaml:"f17"`
+	F18  string         `yaml:"f18"`
+	Rest map[string]any `yaml:",inline"`
+}
+
+// A document that matches n of the eighteen named fields (n next to the
+// integer constants of the unmarshalling code, and the bound) plus two keys no
+// field names: every named key goes to its field and nowhere else, the other
+// two go to the inline map and nothing else does.
+func vpH_c16_wide() {
+	n := vpBoundarySize("*unmarshal.go", 18)
+	if n > 18 {
+		n = 18
+	}
+	names := []string{"f01", "f02", "f03", "f04", "f05", "f06", "f07", "f08", "f09", "f10", "f11", "f12", "f13", "f14", "f15", "f16", "f17", "f18"}
+	doc := NewMap[string, any](n + 2)
+	doc.Set("extra", "e")
+	for i := 0; i < n; i++ {
+		doc.Set(names[i], "v"+names[i])
+	}
+	doc.Set("zz", "z")
+	var w vpWide
+	vpAssert(Unmarshal(doc, &w) == nil, "a wide document decodes")
+	got := []string{w.F01, w.F02, w.F03, w.F04, w.F05, w.F06, w.F07, w.F08, w.F09, w.F10, w.F11, w.F12, w.F13, w.F14, w.F15, w.F16, w.F17, w.F18}
+	for i := range names {
+		want := ""
+		if i < n {
+			want = "v" + names[i]
+		}
+		vpAssert(got[i] == want, "every named key goes to its field; fields whose key is absent stay as they were")
+	}
+	vpAssert(len(w.Rest) == 2 && w.Rest["extra"] == any("e") && w.Rest["zz"] == any("z"), "exactly the keys no field names go to the inline map, however many named keys the document has")
 }
